@@ -7,6 +7,7 @@ none of the statements needs a NUL-freeness hypothesis because neither function
 looks at any byte value other than '/' and '.').
 -/
 import Sqfs.Proofs.Path
+import Sqfs.Proofs.C18InPlace
 namespace Sqfs.C18
 open Sqfs.Path
 
@@ -164,6 +165,73 @@ theorem canon_dst_le_src (b : Bool) (s r : Bytes) (h : canonGo b s = some r) : r
             · exact key true SL _ r h (fun r'' => ih true r'')
             · exact key false c _ r h (fun r'' => ih false r'')
 
+/-! ### in-place faithfulness
+
+The two lemmas above bound the totals only.  The theorems below remove the modelling
+assumption altogether: `Sqfs.PathIP` (Model/C18InPlace.lean) executes the C statements
+of `canonicalize_name.c` on *one* byte array with a read and a write cursor, every
+access bounds-checked; they show that this run never leaves the array, returns -1
+exactly when the functional model `canonicalize` fails, and otherwise leaves exactly
+the functional model's result (then a NUL) in the array - for every NUL-free string
+and whatever follows it in memory. -/
+
+open Sqfs.PathIP in
+/--
+**Memory-level statement.**  The array holds `s`, a NUL, then arbitrary bytes `tl`.
+With any fuel above `s.length + 1` the in-place run terminates inside the array and
+* returns -1 iff `canonicalize s = none`;
+* otherwise the array afterwards is `r ++ [0] ++ junk ++ tl` with `canonicalize s = some r`:
+  the result, its terminator, `junk` = what is left of the old contents, and the
+  bytes behind the old terminator untouched (the function writes only into the
+  string's own `s.length + 1` bytes).
+-/
+theorem canon_inplace_memory (s : Bytes) (hs : (0 : UInt8) ∉ s) (tl : Mem) (fuel : Nat) (hf : s.length + 1 < fuel) :
+    (canonicalize s = none → canonicalizeIP fuel (s ++ 0 :: tl) = some Result.fail) ∧
+    (∀ r, canonicalize s = some r → ∃ junk : Mem,
+      canonicalizeIP fuel (s ++ 0 :: tl) = some (Result.ok (r ++ 0 :: (junk ++ tl))) ∧
+      r.length + junk.length = s.length) := by
+  have h := canonicalizeIP_spec s hs tl fuel hf
+  constructor
+  · intro hn; rw [hn] at h; exact h
+  · intro r hr
+    rw [hr] at h
+    obtain ⟨m', hrun, hh, hlen, hdrop⟩ := h
+    obtain ⟨junk, hm, hj⟩ := explicit_of_holds hh (by rw [hlen]; simp; omega) hdrop (canon_length_le s r hr)
+    exact ⟨junk, by rw [hrun, hm], hj⟩
+
+open Sqfs.PathIP in
+/--
+`normalize_slashes` on its own (passes 1 and 3), at memory level: on the array `s`, NUL, `tl` the in-place run
+stays inside the array and leaves `normalizeSlashes s`, a NUL, leftovers, and `tl` untouched.
+-/
+theorem norm_inplace_memory (s : Bytes) (hs : (0 : UInt8) ∉ s) (tl : Mem) (fuel : Nat) (hf : s.length + 1 < fuel) :
+    ∃ junk : Mem, normalizeIP fuel (s ++ 0 :: tl) = some (normalizeSlashes s ++ 0 :: (junk ++ tl)) ∧
+      (normalizeSlashes s).length + junk.length = s.length := by
+  obtain ⟨m', hrun, hlen, hh, hle, hdrop⟩ := normalizeIP_spec s hs tl fuel hf
+  obtain ⟨junk, hm, hj⟩ := explicit_of_holds hh (by rw [hlen]; simp; omega) hdrop hle
+  exact ⟨junk, by rw [hrun, hm], hj⟩
+
+open Sqfs.PathIP in
+/-- **The in-place function is the functional model** (array = the string and its terminator, as in the harness). -/
+theorem canon_inplace_eq_model (s : Bytes) (hs : (0 : UInt8) ∉ s) : canonInPlace s = some (canonicalize s) := by
+  have h := canon_inplace_memory s hs [] (s.length + 1 + 2) (by omega)
+  have hfuel : (s ++ [0]).length + 2 = s.length + 1 + 2 := by simp
+  unfold canonInPlace
+  simp only [hfuel]
+  cases hc : canonicalize s with
+  | none => simp [h.1 hc]
+  | some r =>
+    obtain ⟨junk, hrun, _⟩ := h.2 r hc
+    have hrn : NulFree r := by
+      unfold canonicalize at hc
+      cases hg : canonGo true (normalizeSlashes s) with
+      | none => rw [hg] at hc; simp at hc
+      | some r2 =>
+        rw [hg] at hc; simp at hc; subst hc
+        exact normGo_nulFree (canonGo_nulFree (normGo_nulFree hs false false) true hg) false false
+    have hcs : cstr (r ++ 0 :: (junk ++ [])) = some r := cstr_holds ⟨_, rfl⟩ hrn
+    simp only [hrun, hcs, Option.map_some]
+
 /-! ### non-vacuity: concrete inputs that exercise every branch -/
 
 -- "//a/./b//c/." → "a/b/c"
@@ -173,5 +241,11 @@ example : canonicalize [97,47,46,46,47,98] = none := by decide
 -- "..." and "..a" are ordinary names
 example : canonicalize [46,46,46,47,46,46,97] = some [46,46,46,47,46,46,97] := by decide
 example : isFilenameSane [46,46,46] = true ∧ isFilenameSane [46,46] = false ∧ isFilenameSane [97,47] = false := by decide
+
+-- in place, with bytes behind the terminator: "//a/./b" ++ NUL ++ [1,2]  ->  "a/b" NUL junk(4) 1 2
+example : Sqfs.PathIP.canonicalizeIP 10 [47,47,97,47,46,47,98,0,1,2] = some (.ok [97,47,98,0,98,0,98,0,1,2]) := by decide
+example : Sqfs.PathIP.canonicalizeIP 10 [97,47,46,46,0,7] = some .fail := by decide
+example : Sqfs.PathIP.normalizeIP 9 [47,47,97,47,47,98,47,0,9] = some [97,47,98,0,47,98,47,0,9] := by decide
+example : Sqfs.PathIP.canonInPlace [46,47,46,46,46,47,47] = some (some [46,46,46]) := by decide
 
 end Sqfs.C18
